@@ -155,3 +155,118 @@ R.contract(
     ],
     raises="none",
 )
+
+
+# ------------------------------------------------------------------ frame: t1 never writes the graph store
+def _t1_frame_lemma():
+    """Syntactic frame check over the *current* source of t1_propagate (incl. the closure _t1_one_graph):
+    names that (transitively) alias the store / a graph / a node / an edge / the csr index are `tainted`; then
+      (1) no attribute/subscript store, augmented store or `del` goes through a tainted name,
+      (2) every method called on a tainted object is one of the read accessors below,
+      (3) a tainted object is passed as an argument only to side-effect free builtins / dict.get,
+      (4) `store` is bound exactly once, from state.get("store").
+    Each rule is one named goal (BoolVal); a violated goal carries the offending line numbers in its name."""
+    import ast
+    import z3
+    from pyvc import frontend
+    mod = frontend.load_module("clematis/engine/stages/t1.py")
+    fn = mod.functions["t1_propagate"]
+    READ_METHODS = {"get_graph", "version_etag", "csr", "values", "items", "keys", "get"}
+    # DedupeRing.contains/add only hash, compare and store their argument (contracts in c15_lru.py)
+    KEY_ONLY = {("ring", "contains"), ("ring", "add")}
+    PURE_FUNCS = {"getattr", "list", "float", "int", "str", "abs", "len", "isinstance", "sorted", "tuple", "bool", "hasattr"}
+
+    def root(e):
+        while True:
+            if isinstance(e, (ast.Attribute, ast.Subscript, ast.Starred)):
+                e = e.value
+            elif isinstance(e, ast.Call):
+                f = e.func
+                if isinstance(f, ast.Attribute):
+                    e = f.value
+                elif isinstance(f, ast.Name) and f.id in ("getattr", "list", "sorted", "tuple") and e.args:
+                    e = e.args[0]
+                else:
+                    return None
+            elif isinstance(e, ast.Name):
+                return e.id
+            else:
+                return None
+
+    def names_of(t, out):
+        if isinstance(t, ast.Name):
+            out.add(t.id)
+        elif isinstance(t, (ast.Tuple, ast.List)):
+            for x in t.elts:
+                names_of(x, out)
+
+    tainted = {"store"}
+    changed = True
+    while changed:
+        changed = False
+        for n in ast.walk(fn):
+            tgts, src = [], None
+            if isinstance(n, ast.Assign):
+                tgts, src = n.targets, n.value
+            elif isinstance(n, ast.AnnAssign) and n.value is not None:
+                tgts, src = [n.target], n.value
+            elif isinstance(n, (ast.For, ast.comprehension)):
+                tgts, src = [n.target], n.iter
+            elif isinstance(n, ast.NamedExpr):
+                tgts, src = [n.target], n.value
+            if src is not None and root(src) in tainted:
+                new = set()
+                for t in tgts:
+                    names_of(t, new)
+                # scalars read out of the graph (ids, labels, weights) are values, not aliases
+                if isinstance(src, ast.Call) and isinstance(src.func, ast.Name) and src.func.id in ("float", "int", "str", "len"):
+                    new = set()
+                if not new <= tainted:
+                    tainted |= new
+                    changed = True
+    bad_store, bad_call, bad_escape, store_binds = [], [], [], []
+    for n in ast.walk(fn):
+        stores = []
+        if isinstance(n, ast.Assign):
+            stores = list(n.targets)
+        elif isinstance(n, (ast.AugAssign, ast.AnnAssign)):
+            stores = [n.target]
+        elif isinstance(n, ast.Delete):
+            stores = list(n.targets)
+        flat = []
+        for t in stores:
+            flat.extend(t.elts if isinstance(t, (ast.Tuple, ast.List)) else [t])
+        for t in flat:
+            if isinstance(t, (ast.Attribute, ast.Subscript)) and root(t) in tainted:
+                bad_store.append(t.lineno)
+            if isinstance(t, ast.Name) and t.id == "store":
+                store_binds.append(ast.unparse(n.value) if hasattr(n, "value") and n.value is not None else "?")
+        if isinstance(n, (ast.Global, ast.Nonlocal)) and "store" in n.names:
+            store_binds.append("global/nonlocal")
+        if isinstance(n, ast.Call):
+            f = n.func
+            if isinstance(f, ast.Attribute) and root(f.value) in tainted and f.attr not in READ_METHODS:
+                bad_call.append(n.lineno)
+            if isinstance(f, ast.Name) and f.id in ("setattr", "delattr"):
+                bad_call.append(n.lineno)
+            pure = (isinstance(f, ast.Name) and f.id in PURE_FUNCS) or (isinstance(f, ast.Attribute) and f.attr in ("get", "append")) \
+                or (isinstance(f, ast.Attribute) and isinstance(f.value, ast.Name) and (f.value.id, f.attr) in KEY_ONLY)
+            for a in list(n.args) + [k.value for k in n.keywords]:
+                # whole tainted objects (not scalars read out of them) handed to anything but a pure builtin
+                if isinstance(a, ast.Name) and a.id in tainted and not pure:
+                    bad_escape.append(n.lineno)
+
+    def goal(ok_list, tag):
+        if not ok_list:
+            return z3.BoolVal(True)
+        return z3.And(z3.BoolVal(False), z3.Bool("%s_at_lines_%s" % (tag, "_".join(str(x) for x in sorted(set(ok_list))))))
+    return [
+        ("no-store-through-graph-objects", [], goal(bad_store, "store")),
+        ("only-read-accessors-called-on-graph-objects", [], goal(bad_call, "call")),
+        ("graph-objects-escape-only-to-pure-builtins", [], goal(bad_escape, "escape")),
+        ("store-bound-once-from-state", [], z3.BoolVal(store_binds == ["state.get('store')"])),
+        ("alias-set-is-the-expected-one", [], z3.BoolVal({"store", "g", "n", "csr", "e"} <= tainted)),
+    ]
+
+
+R.lemma("t1-frame", "C12", _t1_frame_lemma)
